@@ -122,9 +122,10 @@ def export_file(path, curves, qmap=None):
 def recorded_single_curves():
     """Well formed recorded single-curve files of the repository"""
     names = ["fmt-jpk-fd_spot3-0192.jpk-force",
-             "fmt-jpk-fd_single_tilted-baseline-mitotic_2021.01.29.jpk-force",
              "fmt-jpk-fd_single_tilted-baseline-drift-"
-             "mitotic_2021.01.29.jpk-force"]
+             "mitotic_2021-01-29.jpk-force",
+             "fmt-jpk-fd_single_tilted-baseline-shift-"
+             "adyp_2023-06-26.jpk-force"]
     return [DATA / n for n in names if (DATA / n).exists()]
 
 
